@@ -14,10 +14,17 @@
 (* with a direction.  The objective value of a call is abstracted to a     *)
 (* class: "opt" (the optimum), "edge" (exactly at distance eps), "out".    *)
 (* A refusing cutoff answers "worst" (+inf minimising, -inf maximising).   *)
+(*                                                                         *)
+(* Wrappers are ordinary shared objects: a layer below the top may also be *)
+(* called directly (a counting problem used on its own before / between    *)
+(* the calls through a cutoff around it, an inner problem shared by two    *)
+(* stacks).  A call therefore ENTERS the stack at a layer e (1 = the top); *)
+(* every law is stated on what each layer itself received.  Direct entries *)
+(* are explored for stacks up to MaxDirectDepth layers.                    *)
 (***************************************************************************)
 EXTENDS Integers, Sequences, FiniteSets, TLC, Json, IOUtils, SequencesExt
 
-CONSTANTS MaxDepth, MaxCalls, MaxCut
+CONSTANTS MaxDepth, MaxCalls, MaxCut, MaxDirectDepth, DirectCalls
 
 Kinds   == {"count", "stats", "precision"} \cup {"cut" \o ToString(n) : n \in 0..MaxCut}
 IsCut(k) == k \notin {"count", "stats", "precision"}
@@ -27,7 +34,9 @@ InPrec(v) == v \in {"opt", "edge"}
 
 Stacks == UNION {[1..d -> Kinds] : d \in 1..MaxDepth}
 
-Layer0 == [n |-> 0, eta |-> 0, hit |-> FALSE, recv |-> 0, rets |-> <<>>]
+\* dir: calls that entered the stack AT this layer (ground truth kept by Evaluate, not by Call)
+Layer0 == [n |-> 0, eta |-> 0, hit |-> FALSE, recv |-> 0, rets |-> <<>>, dir |-> 0]
+Entries(s) == IF Len(s) <= MaxDirectDepth THEN 1..Len(s) ELSE {1}
 
 \* One Evaluate(cls) entering layer i of stack `sk` with layer states `ls`.
 \* Returns [ls, ret, base]: new layer states, returned value, 1 if the base objective was invoked.
@@ -45,35 +54,39 @@ Call(sk, ls, i, cls) ==
                  IN [ls |-> fin, ret |-> r.ret, base |-> r.base]
 
 -----------------------------------------------------------------------------
-VARIABLES sk, max, ls, base, calls, last
-vars == <<sk, max, ls, base, calls, last>>
+VARIABLES sk, max, ls, base, calls, ents, last
+vars == <<sk, max, ls, base, calls, ents, last>>
 
 Init == /\ sk \in Stacks
         /\ max \in BOOLEAN
         /\ ls = [i \in DOMAIN sk |-> Layer0]
         /\ base = 0
         /\ calls = <<>>
+        /\ ents = <<>>
         /\ last = "none"
 
-Evaluate(cls) ==
+Evaluate(cls, e) ==
     /\ Len(calls) < MaxCalls
-    /\ LET r == Call(sk, ls, 1, cls) IN
-       /\ ls' = r.ls
+    /\ LET r == Call(sk, ls, e, cls) IN
+       /\ ls' = [r.ls EXCEPT ![e].dir = @ + 1]
        /\ base' = base + r.base
        /\ last' = r.ret
     /\ calls' = Append(calls, cls)
+    /\ ents' = Append(ents, e)
     /\ UNCHANGED <<sk, max>>
 
-Next == \E c \in Classes : Evaluate(c)
+EvaluateTop(cls)       == Evaluate(cls, 1)
+EvaluateDirect(cls, e) == e > 1 /\ Evaluate(cls, e)
+Next == \E c \in Classes : EvaluateTop(c) \/ \E e \in Entries(sk) : EvaluateDirect(c, e)
 Spec == Init /\ [][Next]_vars
 
 -----------------------------------------------------------------------------
 (* The laws of C16                                                         *)
 Min2(a, b) == IF a < b THEN a ELSE b
 NCalls == Len(calls)
-\* calls received by layer i (ground truth: the outermost layer receives all, a layer below receives what its
-\* outer neighbour forwarded)
-Received(i) == IF i = 1 THEN NCalls ELSE ls[i - 1].n
+\* calls received by layer i (ground truth: the calls that entered at it plus what its outer neighbour forwarded)
+Received(i) == ls[i].dir + (IF i = 1 THEN 0 ELSE ls[i - 1].n)
+NoDirectBelow(i) == \A j \in DOMAIN sk : j > i => ls[j].dir = 0
 BaseReceived == IF Len(sk) = 0 THEN NCalls ELSE ls[Len(sk)].n
 
 \* "evaluate returns exactly the wrapped objective's value" unless a cutoff below refused
@@ -87,7 +100,12 @@ CountLaw == \A i \in DOMAIN sk :
 BaseLaw == base = BaseReceived
 \* "a cutoff wrapper forwards exactly the first N calls and afterwards returns the worst value without invoking
 \*  the objective": the hard budget of C03
-BudgetHard == \A i \in DOMAIN sk : IsCut(sk[i]) => base <= CutOf(sk[i])
+BudgetHard == \A i \in DOMAIN sk : IsCut(sk[i]) => /\ ls[i].n <= CutOf(sk[i])
+                                                    /\ NoDirectBelow(i) => base <= CutOf(sk[i])
+\* a cutoff's own budget is independent of whatever else its inner problem was used for
+CutoffOwnBudget == \A i \in DOMAIN sk : IsCut(sk[i]) =>
+                     \A j \in DOMAIN ls[i].rets : (j <= CutOf(sk[i]) /\ ls[i].rets[j] = "worst") =>
+                        \E m \in DOMAIN sk : m > i /\ IsCut(sk[m]) /\ ls[m].n = CutOf(sk[m])
 CutoffPrefix == \A i \in DOMAIN sk : IsCut(sk[i]) =>
                    \A j \in DOMAIN ls[i].rets : (j > CutOf(sk[i])) => ls[i].rets[j] = "worst"
 \* "a precision wrapper records the 1-based index of the first evaluation within the precision"
@@ -107,14 +125,20 @@ CountersNeverDecrease == [][\A i \in DOMAIN sk : ls'[i].n >= ls[i].n]_vars
 Obs(lss, ret, b) == [ret |-> ret, n |-> [i \in DOMAIN lss |-> lss[i].n], eta |-> [i \in DOMAIN lss |-> lss[i].eta],
                      hit |-> [i \in DOMAIN lss |-> lss[i].hit], base |-> b]
 
-RECURSIVE RunSeq(_, _, _, _, _)
-RunSeq(s, lss, b, cs, acc) ==
+RECURSIVE RunSeq(_, _, _, _, _, _)
+RunSeq(s, lss, b, cs, es, acc) ==
     IF cs = <<>> THEN acc
-    ELSE LET r == Call(s, lss, 1, Head(cs)) IN
-         RunSeq(s, r.ls, b + r.base, Tail(cs), Append(acc, Obs(r.ls, r.ret, b + r.base)))
+    ELSE LET r == Call(s, lss, Head(es), Head(cs)) IN
+         RunSeq(s, r.ls, b + r.base, Tail(cs), Tail(es), Append(acc, Obs(r.ls, r.ret, b + r.base)))
 
-Table == { [stack |-> s, calls |-> cs, obs |-> RunSeq(s, [i \in DOMAIN s |-> Layer0], 0, cs, <<>>)] :
-             s \in Stacks, cs \in [1..MaxCalls -> Classes] }
+Row(s, cs, es) == [stack |-> s, calls |-> cs, ents |-> es, obs |-> RunSeq(s, [i \in DOMAIN s |-> Layer0], 0, cs, es, <<>>)]
+\* all calls through the top: every sequence of MaxCalls classes
+TopTable == { Row(s, cs, [j \in 1..MaxCalls |-> 1]) : s \in Stacks, cs \in [1..MaxCalls -> Classes] }
+\* at least one call entering below the top: every sequence of DirectCalls (class, entry) pairs
+DirectTable == UNION { { Row(s, cs, es) : cs \in [1..DirectCalls -> Classes],
+                                          es \in {f \in [1..DirectCalls -> Entries(s)] : \E j \in DOMAIN f : f[j] > 1} } :
+                       s \in {t \in Stacks : Len(t) > 1 /\ Len(t) <= MaxDirectDepth} }
+Table == SetToSeq(TopTable) \o SetToSeq(DirectTable)
 
-WriteTable == ndJsonSerialize(IOEnv.VERIF_OUT, SetToSeq(Table))
+WriteTable == ndJsonSerialize(IOEnv.VERIF_OUT, Table)
 =============================================================================
